@@ -70,10 +70,24 @@ def set_array_name_format(value):
     _array_name_format = value
 
 
-_any_dtype = object()
+class _Sentinel:
+    # These sentinels are compared by identity, so they must survive pickling as the
+    # very same objects. (In particular `cloudpickle` serialises annotation classes by
+    # value, and when loading in the same process re-populates the *original* class.)
+    def __init__(self, name: str):
+        self._name = name
 
-_anonymous_dim = object()
-_anonymous_variadic_dim = object()
+    def __repr__(self):
+        return self._name
+
+    def __reduce__(self):
+        return self._name  # i.e. pickle by reference, as a global of this module
+
+
+_any_dtype = _Sentinel("_any_dtype")
+
+_anonymous_dim = _Sentinel("_anonymous_dim")
+_anonymous_variadic_dim = _Sentinel("_anonymous_variadic_dim")
 
 
 class _DimType(enum.Enum):
